@@ -193,6 +193,40 @@ def check_reduction(tier="quick"):
     return out
 
 
+def check_line_level(tier="quick"):
+    """Engine L against engine T: with one pre-emption at every source line, every terminal observation must be one
+    that the full interleaving search (no reduction) reaches as well - the pinned package keeps nothing in memory between
+    two file-system / lock operations that another thread could disturb - and the bound-1 executions of engine T
+    must all be found; recorded line-level schedules replay to the recorded observation."""
+    from . import env, engine_l, engine_t, tscen
+    env.install()
+    root = os.path.join(common.scratch(), "st-line")
+    out = []
+    for spec in [
+        dict(name="t1A||d1 from Aunref", init="Aunref", threads={"T1": [("tag", "p1", "A")], "T2": [("delete", "p1")]}),
+    ] + ([] if tier == "quick" else [
+        dict(name="d1||s2A from p1A", init="p1A", threads={"T1": [("delete", "p1")], "T2": [("store", "p2", "A", None)]}),
+    ]):
+        sc = tscen.make_scenario(spec)
+        full = engine_t.explore(sc, root, reduce=False)
+        b1 = engine_t.explore(sc, root, reduce=False, bound=1)
+        got = {}
+        nexec = 0
+        points = 0
+        for first in sorted(sc.threads):
+            r = engine_l.explore(sc, root, first, "line", (0, 1))
+            got.update(r["terminals"])
+            nexec += r["executions"]
+            points += r["preemption_points"]
+        assert set(got) <= set(full["terminals"]), "line-level exploration of %s reaches an observation the full search does not" % spec["name"]
+        assert set(b1["terminals"]) <= set(got), "line-level exploration of %s misses a bound-1 observation of engine T" % spec["name"]
+        for term, sched in list(got.items())[:3]:
+            ex = tscen.run_schedule(sc, root, sched)
+            assert sc.terminal(ex, root) == term, "line-level schedule does not replay deterministically"
+        out.append((spec["name"], points, nexec, len(got), len(b1["terminals"]), len(full["terminals"])))
+    return out
+
+
 # ----------------------------------------------------------------------------- thorough
 
 
@@ -305,6 +339,9 @@ def main(tier="quick"):
     for name, a, b, t in check_reduction(tier):
         print("selftest: reduction %-22s %5d executions (unreduced %5d), %d observations, equal sets, replays deterministic" % (
             name, a, b, t))
+    for name, pts, nx, a, b, c in check_line_level(tier):
+        print("selftest: line level %-22s %5d pre-emption points, %5d executions, %d observations (engine T bound 1: %d, unbounded: %d), replays deterministic" % (
+            name, pts, nx, a, b, c))
     if tier == "thorough":
         print("selftest: repository suite under the layer:", check_repo_suite_under_layer())
         print("selftest: real multiprocessing:", check_real_multiprocessing())
